@@ -276,7 +276,6 @@ fn explain(segs: &[Seg], got: &Got, max: usize) -> bool {
                     && g.bc() == got.broadcast
                     && g.seq() == (seq + 1) & 0x3F
                     && got.data[pos..].starts_with(&g.data)
-                    && (!g.data.is_empty() || g.fin())
                 {
                     pos += g.data.len();
                     seq = g.seq();
